@@ -105,31 +105,41 @@ Definition st_loop : st := {| regs := repeat 0 13; gas := 100;
 Definition view (r : option (exit * Z * st * list (Z * Z))) :=
   match r with Some (e, pc, s, log) => Some (e, pc, gas s, regs s, log) | None => None end.
 
-Example engines_equiv_loop :
-  exists p, deblob blob_loop = Some p /\
-  view (psi_h (run_blocks fixed) (host_tab 64) 10 100 p 0 st_loop [])
-    = Some (Panic, 0, 76, [0; 0; 0; 0; 0; 0; 0; 88; 0; 0; 0; 0; 0], [(7, 20); (0, 5)]) /\
-  view (psi_h (run_steps fixed) (host_tab 64) 10 100 p 0 st_loop [])
-    = Some (Panic, 0, 76, [0; 0; 0; 0; 0; 0; 0; 88; 0; 0; 0; 0; 0], [(7, 20); (0, 5)]) /\
-  (* its table: 8 entries, blocks at 0, 6 and 18; 5 and 20 are entries inside blocks *)
-  map fst (t_idx (predecode p)) = [20; 18; 14; 9; 6; 5; 3; 0] /\
-  t_blocks (predecode p) = [(18, (6, 8)%nat); (6, (3, 6)%nat); (0, (0, 3)%nat)].
-Proof. eexists. split; [vm_compute; reflexivity|]. vm_compute. repeat split; reflexivity. Qed.
+Definition on_blob {A} (b : bytes) (f : prog -> A) : option A := match deblob b with Some p => Some (f p) | None => None end.
+
+Example engines_equiv_loop_blocks :
+  on_blob blob_loop (fun p => view (psi_h (run_blocks fixed) (host_tab 64) 10 100 p 0 st_loop []))
+    = Some (Some (Panic, 0, 76, [0; 0; 0; 0; 0; 0; 0; 88; 0; 0; 0; 0; 0], [(7, 20); (0, 5)])).
+Proof. vm_compute. reflexivity. Qed.
+Example engines_equiv_loop_steps :
+  on_blob blob_loop (fun p => view (psi_h (run_steps fixed) (host_tab 64) 10 100 p 0 st_loop []))
+    = Some (Some (Panic, 0, 76, [0; 0; 0; 0; 0; 0; 0; 88; 0; 0; 0; 0; 0], [(7, 20); (0, 5)])).
+Proof. vm_compute. reflexivity. Qed.
+(* its table: 8 entries, blocks at 0, 6 and 18; 5 and 20 are entries inside blocks *)
+Example loop_table :
+  on_blob blob_loop (fun p => (map fst (t_idx (predecode p)), t_blocks (predecode p)))
+    = Some ([20; 18; 14; 9; 6; 5; 3; 0], [(18, (6, 8)%nat); (6, (3, 6)%nat); (0, (0, 3)%nat)]).
+Proof. vm_compute. reflexivity. Qed.
 
 (* what the two sides return on the witnesses above *)
 Example refuted_values :
-  both blob_fault fixed (q_of true false false false false false) 10 0 (st0 10)
-    = (Some (Fault 131072, 0, 9), Some (Fault 131072, 5, 9)) /\
-  both blob_ecalli fixed (q_of false true false false false false) 10 0 (st0 10)
-    = (Some (Host 5, 2, 9), Some (Host 5, 0, 9)) /\
-  both blob_fall fixed (q_of false false true false false false) 10 0 (st0 5) = (Some (Panic, 0, 3), Some (Panic, 0, 4)) /\
-  both blob_self fixed (q_of false false false true false false) 10 0 (st0 3) = (Some (OutOfGas, 0, 0), Some (Panic, 0, 1)) /\
-  both blob_movereg fixed (q_of false false false false true false) 10 0 (st0 5) = (Some (Panic, 0, 3), Some (Halt, 0, 4)) /\
-  both blob_odd (q_of false false false false false true) fixed 10 1 (st0 5) = (Some (Panic, 0, 5), Some (Panic, 0, 3)) /\
-  both blob_gap (q_of false false false false false true) fixed 10 0 (st0 5) = (Some (Panic, 0, 4), Some (Panic, 0, 3)).
-Proof. vm_compute. repeat split; reflexivity. Qed.
+  [ both blob_fault fixed (q_of true false false false false false) 10 0 (st0 10);
+    both blob_ecalli fixed (q_of false true false false false false) 10 0 (st0 10);
+    both blob_fall fixed (q_of false false true false false false) 10 0 (st0 5);
+    both blob_self fixed (q_of false false false true false false) 10 0 (st0 3);
+    both blob_movereg fixed (q_of false false false false true false) 10 0 (st0 5);
+    both blob_odd (q_of false false false false false true) fixed 10 1 (st0 5);
+    both blob_gap (q_of false false false false false true) fixed 10 0 (st0 5) ]
+  = [ (Some (Fault 131072, 0, 9), Some (Fault 131072, 5, 9));
+      (Some (Host 5, 2, 9), Some (Host 5, 0, 9));
+      (Some (Panic, 0, 3), Some (Panic, 0, 4));
+      (Some (OutOfGas, 0, 0), Some (Panic, 0, 1));
+      (Some (Panic, 0, 3), Some (Halt, 0, 4));
+      (Some (Panic, 0, 5), Some (Panic, 0, 3));
+      (Some (Panic, 0, 4), Some (Panic, 0, 3)) ].
+Proof. vm_compute. reflexivity. Qed.
 
-(* an instruction start the bitmask does not mark: in blob_gap the table has entries at 0 and 27 only, while the
-   machine also executes at 25 (istart needs a NON-terminator before; 25 follows the terminator fallthrough) *)
-Example gap_table : exists p, deblob blob_gap = Some p /\ map fst (t_idx (predecode p)) = [27; 0].
-Proof. eexists. split; vm_compute; reflexivity. Qed.
+(* an address the machine executes at without the bitmask marking it: in blob_gap the table has entries at 0 and 27
+   only; 25 (behind the terminator fallthrough, skip clamped) is decoded on demand *)
+Example gap_table : on_blob blob_gap (fun p => map fst (t_idx (predecode p))) = Some [27; 0].
+Proof. vm_compute. reflexivity. Qed.
